@@ -614,9 +614,10 @@ def c19_cfg(sid, cap, ipc, sls, **extra):
 
 
 C19_QUICK = [c19_cfg(4, 256, 4, 2), c19_cfg(2, 128, 4, 2), c19_cfg(1, 16, 4, 1), c19_cfg(1, 2, 1, 1, ARDUINOJSON_DEBUG=1), c19_cfg(2, 3, 2, 4),
-             c19_cfg(1, 100, 3, 2), c19_cfg(2, 16, 1, 1), c19_cfg(4, 2, 2, 1, ARDUINOJSON_DEBUG=1)]
+             c19_cfg(1, 100, 4, 2),   # (more inline pools than the id space allows: 255 / 100 + 1 = 3)
+             c19_cfg(2, 16, 1, 1), c19_cfg(4, 2, 2, 1, ARDUINOJSON_DEBUG=1)]
 C19_MORE = [c19_cfg(1, 128, 4, 1), c19_cfg(1, 256, 4, 2), c19_cfg(1, 3, 3, 1), c19_cfg(1, 16, 2, 4), c19_cfg(2, 100, 3, 2), c19_cfg(2, 256, 1, 1), c19_cfg(2, 2, 4, 2, ARDUINOJSON_DEBUG=1),
-            c19_cfg(4, 3, 1, 2), c19_cfg(4, 16, 3, 4), c19_cfg(4, 100, 2, 1), c19_cfg(4, 128, 1, 4), c19_cfg(1, 128, 3, 2), c19_cfg(1, 100, 1, 1), c19_cfg(2, 128, 2, 4, ARDUINOJSON_DEBUG=1)]
+            c19_cfg(4, 3, 1, 2), c19_cfg(4, 16, 3, 4), c19_cfg(4, 100, 2, 1), c19_cfg(4, 128, 1, 4), c19_cfg(1, 128, 3, 2), c19_cfg(1, 100, 1, 1), c19_cfg(1, 100, 3, 2), c19_cfg(2, 128, 2, 4, ARDUINOJSON_DEBUG=1)]
 
 
 def c19_name(cfg):
@@ -690,6 +691,8 @@ def c20_jobs(tier):
     return [
         Job('tsan', 'c20', 'threads', q(tier, 160, 8000), flavour='tsan', workers=4, timeout=q(tier, 900, 7200)),
         Job('stress-O2', 'c20', 'threads', q(tier, 1600, 80000), flavour='plain', workers=4, timeout=q(tier, 900, 7200)),
+        # every process runs exactly one round, concurrent run first: lazily initialised library state is cold when the threads start
+        Job('tsan-cold', 'c20', 'threads', q(tier, 24, 64), flavour='tsan', workers=q(tier, 24, 64), timeout=q(tier, 900, 7200)),
         Job('tsan-small', 'c20', 'threads', q(tier, 80, 4000), flavour='tsan', workers=4, defines={'ARDUINOJSON_SLOT_ID_SIZE': 1, 'ARDUINOJSON_POOL_CAPACITY': 8, 'ARDUINOJSON_USE_DOUBLE': 0, 'ARDUINOJSON_ENABLE_COMMENTS': 1}, timeout=q(tier, 900, 7200)),
     ]
 
